@@ -376,6 +376,19 @@ Inv_SeedsAll == Report("SeedsAll",
     => /\ AtLeastOnce(S, D, Ids(D))
        /\ (NoSkip \/ NoMAA(S)) => SeedBijection(S, D, Ids(D)))
 
+\* C20, last clause: after build() on a fresh diagram the summary lists every attractor exactly once, labelled as lying in a
+\* minimal trap space or as motif-avoidant according to the node that contains it (ev.out = <<nodes, depth, entries>>,
+\* entries[i] = <<label, space, seeds>>)
+SummaryOnce(o) ==
+    LET en == o[3]
+        hits(A) == {<<i, k>> \in UNION {{<<j, m>> : m \in DOMAIN en[j][3]} : j \in DOMAIN en} :
+                       IsState(en[i][3][k]) /\ StateOf(en[i][3][k]) \in A}
+    IN /\ \A A \in S.attr : Cardinality(hits(A)) = 1
+       /\ \A i \in DOMAIN en : (en[i][1] = 1) <=> (en[i][2] \in S.mint)
+Inv_SummaryOnce == Report("SummaryOnce",
+    (Started /\ ev.op = "summary" /\ ~ev.raised /\ mode = "complete" /\ Len(tr.events) >= 2 /\ tr.events[2].op = "build")
+    => SummaryOnce(ev.out))
+
 \* C01: after a complete default strategy on a fresh diagram, the seeds of the expanded nodes
 \* are in bijection with the attractors
 Inv_C01 == Report("C01",
